@@ -53,9 +53,10 @@ def check_c13(tier):
             trees[tk] = root
         root = trees[tk]
         via = c.get("via", "direct")
-        if via == "symlink":
-            # the client names the workspace through a symbolic link that lives in a plainly named directory
-            link = os.path.join(base, "links", "l%d" % list(trees).index(tk))
+        if via in ("symlink", "symlink_ign"):
+            # the client names the workspace through a symbolic link that lives in a plainly named directory / in a directory
+            # whose name is on the ignore list
+            link = os.path.join(base, "links" if via == "symlink" else "build", "l%d" % list(trees).index(tk))
             os.makedirs(os.path.dirname(link), exist_ok=True)
             if not os.path.islink(link):
                 os.symlink(root, link)
